@@ -4,10 +4,12 @@ plus `machinery_exit` (checks that exit 2/101), then copies the matrix to seeded
 import json, os, sys, collections, shutil
 src = sys.argv[1] if len(sys.argv) > 1 else "/tmp/mx/matrix.tsv"
 det = collections.defaultdict(list); mach = collections.defaultdict(list)
+last = {}
 for line in open(src):
     f = line.rstrip("\n").split("\t")
     if len(f) < 3: continue
-    mid, chk, rc = f[0], f[1], f[2]
+    last[(f[0], f[1])] = f[2]          # a later row for the same (change, check) is a re-run and wins
+for (mid, chk), rc in last.items():
     if rc == "1": det[mid].append(chk)
     elif rc not in ("0",): mach[mid].append(f"{chk}:{rc}")
 for mid in sorted(set(det) | set(mach)):
@@ -18,5 +20,5 @@ for mid in sorted(set(det) | set(mach)):
     if mach.get(mid): m["machinery_exit"] = mach[mid]
     m["detected_by_source"] = "tools/matrix.sh (quick tier of every check on scratch copies)"
     json.dump(m, open(p, "w"), indent=1)
-shutil.copy(src, "/verif/seeded/matrix.tsv")
+if os.path.abspath(src) != "/verif/seeded/matrix.tsv": shutil.copy(src, "/verif/seeded/matrix.tsv")
 print("updated", len(det), "entries")
